@@ -251,19 +251,26 @@ EXTRA = {
            "the incan_core kernels); the table resolve_static_str_const reads is complete before the first resolution "
            "(TWOPASS); every exit of the in-progress arm of eval_const_by_name reports the cycle; no binary operator "
            "in the anchored files has identical operands (EQOP).",
-    "C07": "EQOP as in C04. Also decided: no path in the compound-assignment arm avoids the policy call except over a not-numeric edge "
+    "C07": "EQOP as in C04; the checker's exponent classifier looks through Expr::Paren (EXPSHAPE); check_program checks "
+           "every const before any other declaration (CONSTFIRST). Also decided: no path in the compound-assignment arm avoids the policy call except over a not-numeric edge "
            "(NOBYPASS); only the three syntactic classifiers call PowExponentKind::from_literal_info (EXPKIND).",
     "C08": "Also decided: the formatter lexes exactly the text it was given (SRCTEXT); a library byte escaper used by the "
            "Bytes arm is invertible by the byte lexer (model of std::ascii::escape_default); the Tuple arm writes the "
            "singleton comma (TUPLE1); a printer function that consults a field of the node it prints consults it on "
            "every path (EVERYPATH, 60+ function/field pairs, two reviewed exemptions); the String arm writes only the "
-           "constant double quote and the escaped payload (STRDELIM).",
+           "constant double quote and the escaped payload (STRDELIM); every backslash escape escape_string can write is "
+           "decoded by the text lexer.",
     "C13": "Also decided: the escaped spelling never reaches a map/set lookup, a crate-local lookup method or a name "
-           "comparison (ESCKEY).",
+           "comparison (ESCKEY, incl. identifier text and closure captures); a method name becomes a builtin MethodKind only "
+           "after a test of the receiver's type (METHODRECV; 2 known findings); a name is a tuple index only when all "
+           "its characters are digits (DIGITCLASS); Rust text parsed into tokens is an identifier construction site "
+           "(PARSEDNAME).",
     "C11": "Also decided (part of the span clause): every Span::new in the parser takes its ends from token spans; "
            "nothing in the backward slice of its arguments measures decoded text (SPANSRC).",
     "C04": "Also decided: no binary operator in the anchored files has identical operands (EQOP).",
-    "C14": "Also decided: check_with_imports records the export list of every dependency, also an empty one (REGALL).",
+    "C14": "Also decided: check_with_imports records the export list of every dependency, also an empty one (REGALL); "
+           "no file probe is reachable after a directory probe in the shared resolver; the key recorded in a work-list's "
+           "visited set is the key it is tested with.",
     "C15": "Also decided: feature flags are read only after every scan_for_* has run (SCANORDER); a crate is recorded as "
            "already declared exactly on the paths that pushed its dependency line (both directions).",
     "C16": "Also decided: -x examines the reported result, after the xfail inversion (STOP); harness files are rewritten "
